@@ -251,7 +251,10 @@ def r1_coverage(ctx):
                 what, pol = DONT_CARE[K]
                 guard_ok = (EDELTA, pol) in resid
                 if K == "range_x":
-                    partial = any(t == "self.fp['range_x'][1]" for t in texts)
+                    partial = any(t in ("max(self.fp['range_x'])",
+                                        "np.max(self.fp['range_x'])",
+                                        "self.fp['range_x'][1]")
+                                  for t in texts)
                     if partial and guard_ok:
                         continue
                     msg = (f"'{K}' is hashed as {texts or 'nothing'} under "
